@@ -68,13 +68,110 @@ func loadInto(c *core.Ctx, sig string, opt badger.Options, dir string, bufs [][]
 	return db, true
 }
 
+// c24DroppedTombstone: the deterministic form of what the concurrent chains hit now and then. A key
+// is in the first backup; it is deleted (or its new version expires) and a compaction down to the
+// last level drops the marker together with everything below it; the incremental backup taken with
+// the version the first one returned has nothing to say about the key; the loaded chain still shows
+// the old value although the source no longer has the key.
+func c24DroppedTombstone(c *core.Ctx, work string, idx int) {
+	dir := filepath.Join(work, fmt.Sprintf("dropped%d", idx))
+	_ = os.MkdirAll(dir, 0o755)
+	defer os.RemoveAll(dir)
+	o, oname := drvOptions(dir, []int{0, 2, 3}[idx%3])
+	o.NumVersionsToKeep = 1
+	db, err := drv.Open(o, false)
+	if err != nil {
+		c.Inconclusive("open: " + err.Error())
+		return
+	}
+	defer db.Close()
+	r := c.Rand(fmt.Sprintf("c24-dropped-%d", idx))
+	w := &drv.World{C: c, Sig: "C24|incremental", DB: db, Opt: o, M: model.New(), R: r}
+	expire := idx%2 == 1
+	for i := 0; i < 8; i++ {
+		_, _ = w.Commit([]drv.WriteSpec{{Key: []byte(fmt.Sprintf("k%02d", i)), Len: 40}})
+	}
+	w.Flush()
+	var b1, b2 bytes.Buffer
+	ret, err := db.Backup(&b1, 0)
+	if err != nil {
+		c.Inconclusive("backup: " + err.Error())
+		return
+	}
+	victim := []byte("k03")
+	if expire {
+		_, _ = w.Commit([]drv.WriteSpec{{Key: victim, Len: 40, Expires: 1}}) // expired long ago
+	} else {
+		_, _ = w.Commit([]drv.WriteSpec{{Key: victim, Del: true}})
+	}
+	_, _ = w.Commit([]drv.WriteSpec{{Key: []byte("k05"), Len: 50}})
+	w.Flush()
+	w.AdvanceWatermark()
+	for rep := 0; rep < 2; rep++ {
+		for l := 0; l < o.MaxLevels-1; l++ {
+			w.CompactForce(l, 1)
+		}
+	}
+	if vs := allVersions(db, false)[string(victim)]; len(vs) > 0 {
+		c.Inconclusive("dropped-tombstone: the compactions kept a version of the deleted key")
+		return
+	}
+	if _, err := db.Backup(&b2, ret); err != nil {
+		c.Inconclusive("backup: " + err.Error())
+		return
+	}
+	tdir := filepath.Join(work, fmt.Sprintf("dropped%d-target", idx))
+	defer os.RemoveAll(tdir)
+	tdb, ok := loadInto(c, "C24|incremental", o, tdir, [][]byte{b1.Bytes(), b2.Bytes()})
+	if !ok {
+		return
+	}
+	defer tdb.Close()
+	c.Eval(1)
+	srcErr := db.View(func(txn *badger.Txn) error { _, e := txn.Get(victim); return e })
+	dstErr := tdb.View(func(txn *badger.Txn) error { _, e := txn.Get(victim); return e })
+	c.Count("backup.dropped_tombstone_cases", 1)
+	if srcErr == badger.ErrKeyNotFound && dstErr == nil {
+		kind := "delete"
+		if expire {
+			kind = "expired"
+		}
+		c.Violation("C24|incremental|marker-compacted-away|resurrected", fmt.Sprintf("key %s is gone from the source (%s marker compacted away before the incremental backup, which therefore carries nothing for it) but visible in the database loaded from the chain (options %s)", victim, kind, oname),
+			map[string]any{"steps": w.Steps, "first_backup_returned": ret})
+	}
+	// every other key must agree
+	for i := 0; i < 8; i++ {
+		k := []byte(fmt.Sprintf("k%02d", i))
+		if string(k) == string(victim) {
+			continue
+		}
+		var sv, dv []byte
+		_ = db.View(func(txn *badger.Txn) error {
+			if it, e := txn.Get(k); e == nil {
+				sv, _ = it.ValueCopy(nil)
+			}
+			return nil
+		})
+		_ = tdb.View(func(txn *badger.Txn) error {
+			if it, e := txn.Get(k); e == nil {
+				dv, _ = it.ValueCopy(nil)
+			}
+			return nil
+		})
+		if string(sv) != string(dv) {
+			c.Violation("C24|incremental|value-differs", fmt.Sprintf("key %s: source %d bytes, loaded chain %d bytes", k, len(sv), len(dv)), nil)
+		}
+	}
+	c.Distinct(fmt.Sprintf("dropped-marker|%s|expire=%v", oname, expire))
+}
+
 // C24 backup and load round trip, including incremental chains.
 func C24(c *core.Ctx) {
 	c.Rule("(1) full backups of quiescent driver-built databases (data in memtable, L0 and deeper levels; deletes, past/future expiry, discard-earlier entries, user meta) loaded into an " +
 		"empty database: with NumVersionsToKeep=1 the restored visible state (value, meta, expiry, version) must equal the model; with unbounded versions and no compaction the " +
 		"restored AllVersions scan must equal the reference rules of Stream.Backup (versions down to the first delete/expired or discard-earlier entry, the latter followed by a " +
 		"delete marker one version below); (2) chains of 3-5 incremental backups, each taken with the version returned by the previous one, while 6 committers keep writing during " +
-		"all but the last backup; loading the chain must reproduce the source's final visible state; a new commit after Load gets a version above everything loaded (C11 oracle); " +
+		"all but the last backup; loading the chain must reproduce the source's final visible state; a new commit after Load gets a version above everything loaded (C11 oracle); (3) the deterministic dropped-marker case: full backup, delete (or expired overwrite) of one key, compaction to the last level until no version of the key is stored, incremental backup, load of both; " +
 		"distinct = (family, options, versions kept, writes-during-backup) classes")
 	work := c.WorkDir()
 	defer os.RemoveAll(work)
@@ -225,8 +322,27 @@ func C24(c *core.Ctx) {
 			tdb, ok := loadInto(c, "C24|chain", res.Opt, tdir, bufs)
 			if ok {
 				info := map[string]any{"options": res.Name, "backups": len(bufs), "returned_versions": rets}
+				// keys whose newest version is a delete or expired entry that the source's compactions
+				// already removed, marker included, cannot be in an incremental backup taken afterwards:
+				// the listed finding (see c24DroppedTombstone). They are reported under its signature and
+				// taken out of the comparison; everything else is compared as before.
+				mm := res.M.Clone()
+				srcVers := allVersions(res.DB, false)
+				nowS := uint64(time.Now().Unix())
+				for _, k := range res.M.Keys() {
+					if _, vis := res.M.Visible(k, ^uint64(0), nowS); vis || len(srcVers[k]) > 0 {
+						continue
+					}
+					found := tdb.View(func(txn *badger.Txn) error { _, e := txn.Get([]byte(k)); return e }) == nil
+					if found {
+						c.Violation("C24|incremental|marker-compacted-away|resurrected", fmt.Sprintf("key %x is gone from the source (its delete/expired marker was compacted away before a later incremental backup) but visible in the database loaded from the chain", k), info)
+						_ = tdb.Update(func(txn *badger.Txn) error { return txn.Delete([]byte(k)) })
+						delete(mm.M, k)
+						c.Count("backup.chain_keys_with_marker_compacted_away", 1)
+					}
+				}
 				before := c.Violations()
-				st := hist.CheckState(c, "C24|chain|final-visible-state", tdb, res.M, hist.StateOpts{})
+				st := hist.CheckState(c, "C24|chain|final-visible-state", tdb, mm, hist.StateOpts{})
 				if c.Violations() > before {
 					c.Set("chain_failure_info", info)
 				}
@@ -243,6 +359,9 @@ func C24(c *core.Ctx) {
 			_ = res.DB.Close()
 			_ = os.RemoveAll(res.Dir)
 		}
+	}
+	for i := 0; i < c.Pick(4, 12); i++ {
+		c24DroppedTombstone(c, work, i)
 	}
 	c.CheckRaces(nil, "", "")
 	c.Assume("Load runs on an otherwise idle target database (its documented contract); the last backup of a chain is taken after the writers stopped so that 'final state' is defined")
